@@ -461,8 +461,15 @@ def bounded_eq(reg, tier, seed):
                     events.append({"message": "SomeEvent", "body": {"n": n}})
                 if op == "poll_region" and k:
                     events[-1] = {"message": "EstablishAgentCommunication", "body": {"n": n, "sim-ip-and-port": "10.7.7.7:7000", "seed-capability": "https://sim.example/seed/new"}}
-                a.swallow = {e["body"]["n"] for e in events if rng.random() < 0.35}
-                will_announce = op == "poll_region" and k and events[-1]["body"]["n"] not in a.swallow
+                    if rng.random() < 0.5:
+                        # the simulator usually names the neighbour first (address and handle, no seed yet), in the same response:
+                        # a templated message in its LLSD form, built by the library's own serializer
+                        from hippolyzer.lib.base.message.message import Message as _M, Block as _B
+                        from hippolyzer.lib.base.message.llsd_msg_serializer import LLSDMessageSerializer as _L
+                        en = _L().serialize(_M("EnableSimulator", _B("SimulatorInfo", Handle=123456789, IP="10.7.7.7", Port=7000)), as_dict=True)
+                        events.insert(len(events) - 1, {"message": en["message"], "body": en["body"]})
+                a.swallow = {e["body"]["n"] for e in events if "n" in e["body"] and rng.random() < 0.35}
+                will_announce = op == "poll_region" and k and (events[-1]["body"]["n"] not in a.swallow or len(events) > k)
                 req_body = llsd.format_xml({"ack": ack, "done": False})
                 f = h.mkflow(eq_url, content=req_body, cap=cap)
                 exc, back = h.event("request", f)
@@ -498,7 +505,7 @@ def bounded_eq(reg, tier, seed):
                 shown = llsd.parse_xml(mf2.response.content)
                 if events:
                     announced = announced or will_announce
-                    kept = [e for e in events if e["body"]["n"] not in a.swallow]
+                    kept = [e for e in events if e["body"].get("n") not in a.swallow]
                     want = kept + pending_injected
                     if not want:
                         if shown is not None and shown != {}:
